@@ -225,18 +225,24 @@ def gen_trait(root, notes, server=False, dirsink=False):
     return '\n'.join(L), info, ms
 
 
-def gen_impl(root, struct, inode_ty, handle_ty, notes, generics=''):
-    """an opaque implementor (backend): all spec fns uninterpreted, all methods external_body"""
+def gen_impl(root, struct, inode_ty, handle_ty, notes, generics='', server=False, dirsink=False):
+    """an opaque implementor (backend): all spec fns uninterpreted, all methods external_body.  server / dirsink: as given to gen_trait for the
+    trait model this impl has to match (only dirsink='opaque' is supported here)"""
     ms = parse_methods(root)
     L = ['impl%s FileSystem for %s {' % (generics, struct), '    type Inode = %s;' % inode_ty, '    type Handle = %s;' % handle_ty,
          '    uninterp spec fn touch_ok(&self) -> bool;', '    uninterp spec fn ids_ok(&self, uid: u32, gid: u32) -> bool;']
+    if server:
+        L.append('    uninterp spec fn res_read_data(&self) -> Seq<u8>;')
     seen_res = set()
     for m in ms:
-        if m['name'] in OMIT:
+        if m['name'] in OMIT and dirsink != 'opaque':
             continue
         sargs, eparams, gens = [], [], []
         mut_ctx = False
         for (n, t) in m['params']:
+            if t.startswith('&mut dyn FnMut(DirEntry') and dirsink == 'opaque':
+                eparams.append('%s: &mut DirSink' % n)
+                continue
             st, se, et, g = spec_of(n, t)
             if t == '&mut Context':
                 mut_ctx = True
@@ -391,7 +397,7 @@ def _tuple_parts(ty):
     return parts
 
 
-def gen_async_trait(root, notes, sync_info, sync_methods, tag=None, server=True):
+def gen_async_trait(root, notes, sync_info, sync_methods, tag=None, server=True, project=False):
     """Model of `trait AsyncFileSystem: FileSystem`, generated from the real trait text on every run.
 
     C20 says the async path invokes "the same filesystem operation with the same arguments": every method `async_<op>`
@@ -466,7 +472,12 @@ def gen_async_trait(root, notes, sync_info, sync_methods, tag=None, server=True)
                 raise X.ExtractError('AsyncFileSystem::%s returns %s, FileSystem::%s returns %s: no embedding' % (an, ret, op, sret))
             comps = ['res->Ok_0.%d' % i for i in range(len(ap))] + ['None::<%s>' % x[len('Option<'):-1] for x in sp[len(ap):]]
             ens.append('res is Ok <==> self.%s() is Ok' % rf)
-            ens.append('res is Ok ==> self.%s()->Ok_0 == (%s)' % (rf, ', '.join(comps)))
+            if project:
+                # project=True (unit asyncpt: the implementor's SYNC method is the reference): the async result is the sync result WITHOUT the trailing
+                # components the async API cannot carry - nothing is said about what those components were
+                ens.append('res is Ok ==> %s' % ' && '.join('res->Ok_0.%d == self.%s()->Ok_0.%d' % (i, rf, i) for i in range(len(ap))))
+            else:
+                ens.append('res is Ok ==> self.%s()->Ok_0 == (%s)' % (rf, ', '.join(comps)))
             ens.append('res is Err ==> self.%s()->Err_0 == res->Err_0' % rf)
             notes.append('fsmodel: %s returns %s where %s returns %s: the async result stands for the sync result with %s = None'
                          % (an, ret, op, sret, ', '.join(sp[len(ap):])))
